@@ -66,6 +66,14 @@ pub fn run() {
     let (l0, c0) = (w.big.len(), w.big.capacity());
     let r = guard(|| w.big.create((Plain(9),)));
     println!("B5 {} len_same={} cap_same={}", match r { Ok(_) => "ok".to_string(), Err(c) => format!("panic {}", c) }, (w.big.len() == l0) as u8, (w.big.capacity() == c0) as u8);
+    // B8 (C08): whatever the extra create does, it must not hand out a handle that is already alive
+    let first = w.big.entities().first().copied();
+    let extra = guard(|| w.big.create((Plain(11),)));
+    match (extra, first) {
+        (Ok(e), Some(f)) => println!("B8 extra_create=ok dup_of_first={} len={}", (e == f) as u8, w.big.len()),
+        (Ok(_), None) => println!("B8 extra_create=ok dup_of_first=0 len={}", w.big.len()),
+        (Err(c), _) => println!("B8 extra_create=panic:{} dup_of_first=0 len={}", c, w.big.len()),
+    }
     // B6: a freed position is reusable at the limit
     let mut reuse = "skipped".to_string();
     if let Some(e) = mid {
@@ -76,6 +84,15 @@ pub fn run() {
     }
     println!("B6 {}", reuse);
     drop(w);
+    // B9: an initial capacity of exactly 2^24 is legal
+    let r = guard(|| Wc::with_capacity(WcCapacity { big: MAX }));
+    match r {
+        Ok(mut w9) => {
+            let ok = w9.big.create_within_capacity((Plain(1),)).is_ok();
+            println!("B9 ok cap={} within={}", w9.big.capacity(), ok as u8);
+        }
+        Err(c) => println!("B9 panic {}", c),
+    }
     // B7: growth from the default (empty) world all the way to the limit
     let mut w = Wc::new();
     let mut failed_at: i64 = -1;
